@@ -13,7 +13,7 @@ PROPERTY = "C10"
 LEVEL = "exploration"
 NEED_EXT = True
 REQUIRED = ["fit", "path.chain", "path.routing", "proba.terminal", "predict.threshold", "indices", "leaves",
-            "depth", "refit.structure"]
+            "depth", "refit.structure", "frame.reordered_columns"]
 RULE = ("binary data classes separable / xor / rings / imbalanced / duplicates / one feature x label sets {0,1}, "
         "{-1,1}, {3,7}, strings, floats x max_depth 1-6 x min_samples_leaf x min_samples_split x fit_improve_algo x "
         "gamma x p1p2 x base estimators x weights x DataFrame; queried on the training rows (exact ties after "
@@ -186,12 +186,35 @@ def run_case(case, ctx):
     depth_of = {nd.index: dp for nd, dp in nodes}
 
     # ---- behaviour on the training rows (exact ties live here) and on new rows
-    for qname, Q in (("train", X), ("new", (rng.randn(40, X.shape[1]) * 1.5).astype(X.dtype))):
+    queries = [("train", X), ("new", (rng.randn(40, X.shape[1]) * 1.5).astype(X.dtype))]
+    if frame and X.shape[1] >= 2:
+        queries.append(("reordered-columns", (rng.randn(30, X.shape[1]) * 1.5).astype(X.dtype)))
+    for qname, Q in queries:
         Qin = Q
         if frame:
             # the batch as a frame whose index is a permutation of the positions
             Qin = pandas.DataFrame(Q, columns=["f%d" % i for i in range(Q.shape[1])],
                                    index=numpy.random.RandomState(sub % 991 + len(Q)).permutation(len(Q)))
+        if qname == "reordered-columns":
+            # a frame that carries the training names in ANOTHER order: the three methods must read it the same way.
+            # The library reads columns by position; an implementation that aligned all three by name would be as
+            # consistent, so that reading is accepted too
+            cperm = numpy.roll(numpy.arange(Q.shape[1]), 1)
+            by_name = Qin
+            Qin = Qin[[Qin.columns[j] for j in cperm]]
+            Q = Q[:, cperm]
+            try:
+                same_as_by_name = (
+                    numpy.array_equal(numpy.asarray(m.predict_proba(Qin)), numpy.asarray(m.predict_proba(by_name))) and
+                    numpy.array_equal(numpy.asarray(m.predict(Qin)), numpy.asarray(m.predict(by_name))) and
+                    numpy.array_equal(numpy.asarray(m.decision_path(Qin).todense()),
+                                      numpy.asarray(m.decision_path(by_name).todense())))
+            except Exception:
+                same_as_by_name = False
+            ctx.hit("frame.reordered_columns")
+            if same_as_by_name and not numpy.array_equal(Q, Q[:, numpy.argsort(cperm)]):
+                ctx.excluded("reordered columns: all three methods align by name")
+                continue
         try:
             proba = numpy.asarray(m.predict_proba(Qin), dtype=float)
             pred = numpy.asarray(m.predict(Qin))
